@@ -17,6 +17,21 @@ CHECKS = {
             "to a stated depth.",
             "fixture stubs on both sides of the comparison; harness-owned mtimes; same-second same-size edits out "
             "of scope (documented mypy limitation)", "4/C02"),
+    "C04": ("fault_enumeration",
+            "exhaustive kill-point and failed-write-subset enumeration on the real build's store-operation log",
+            "For every base transition (warm, partially stale cache + one edit) of 5 universes x both stores: the run is "
+            "killed (real os._exit) before/after EVERY store operation and inside every file-store write, and every subset "
+            "of failed writes up to size 2 (Q) / 3 (T) (all subsets for short logs) is injected, under two clock answers; "
+            "the recovery run (T: also after each further edit) must equal a cold run.",
+            "single-process build lane; kill = process death at a store-operation boundary (no power-loss / page-cache "
+            "model); fixture stubs on both sides", "4/C04"),
+    "C09": ("model_checking",
+            "exhaustive option-toggle histories (depth 2-3) over the introspected flag table through the real CLI",
+            "Every flag of mypy.main.define_options() (introspected), plus value-carrying flags with corpus values and "
+            "[mypy]/[mypy-module] config spellings, toggled in both directions between two (T: three) runs sharing a cache, "
+            "on every corpus program that uses the flag and a generic witness set; compared with a cold run of the last "
+            "option set. Only (program, option) pairs whose cold outputs differ count (witness).",
+            "fixture stubs on both sides; options without a witness program are listed as coverage gaps", "4/C09"),
 }
 
 NOT_BUILT = {}
